@@ -440,6 +440,8 @@ func (p c15) Run(seed uint64, run int, tier string, acc *Acc) *Violation {
 			acc.Steps += t.Steps
 		}
 		acc.Probe("switches", int64(res.sched.Switches))
+		acc.Fault("preemption", int64(len(plan)))
+		acc.Fault("task-switch", int64(res.sched.Switches))
 		if res.sched.Overlap {
 			acc.Distinct[res.sched.InterleaveHash] = true
 			acc.Probe("schedules-with-overlap", 1)
